@@ -170,7 +170,7 @@ class MatchScenario(NetScenario):
             r = live[0]
             for kind in ("tok+1:CON", "tok+1:NON", "tok-1:CON", "ip:CON", "ip:NON", "ip:ACK", "port:CON", "port:NON", "port:ACK"):
                 out.append(("forge:%s:%s" % (r.name, kind), 1))
-            if r.mtype == "CON":
+            if r.mtype == "CON" and r.mid is not None:   # a held-back request has no message ID to reset yet
                 out.append(("rst:%s" % r.name, 1))
                 out.append(("rst@port:%s" % r.name, 1))
         if done and "replay" not in st.faults_used:
